@@ -67,6 +67,36 @@ impl MessageBody for TokBody {
     }
 }
 
+thread_local! {
+    /// (created, dropped) zero-sized bodies of the current case
+    static ZST: std::cell::Cell<(u32, u32)> = const { std::cell::Cell::new((0, 0)) };
+}
+
+/// A zero-sized message body with a destructor: it cannot carry a token, so creations and drops are counted.
+#[derive(Debug)]
+struct ZstBody;
+impl ZstBody {
+    fn new() -> Self {
+        ZST.with(|z| z.set((z.get().0 + 1, z.get().1)));
+        ZstBody
+    }
+}
+impl Clone for ZstBody {
+    fn clone(&self) -> Self {
+        ZstBody::new()
+    }
+}
+impl Drop for ZstBody {
+    fn drop(&mut self) {
+        ZST.with(|z| z.set((z.get().0, z.get().1 + 1)));
+    }
+}
+impl MessageBody for ZstBody {
+    fn byte_len(&self) -> usize {
+        0
+    }
+}
+
 #[derive(Clone, Debug, Serialize, Deserialize, PartialEq)]
 pub enum Stop {
     BuilderDropped,
@@ -182,10 +212,10 @@ impl Module for M {
             send(Message::default().kind(2).id(k as u16).with_content(TokBody(Tok::new("message body (sent at start)"), *b % 600)), "out");
         }
         for (k, t) in self.spec.selfs.iter().enumerate() {
-            schedule_in(
-                Message::default().kind(1).id(k as u16).with_content(TokBody(Tok::new("message body (self message)"), 1)),
-                du(*t as u128 * 1_000_000 + k as u128),
-            );
+            let msg = Message::default().kind(1).id(k as u16);
+            // every third self message carries a zero-sized body with a destructor
+            let msg = if k % 3 == 2 { msg.with_content(ZstBody::new()) } else { msg.with_content(TokBody(Tok::new("message body (self message)"), 1)) };
+            schedule_in(msg, du(*t as u128 * 1_000_000 + k as u128));
         }
         if let Some((t, _)) = self.spec.shutdown {
             schedule_in(Message::default().kind(9), du(t as u128 * 1_000_000 + 500));
@@ -270,6 +300,7 @@ pub fn run_case(case: &Case) -> Result<(bool, Vec<&'static str>), Failure> {
     REG.with(|r| r.borrow_mut().clear());
     GEN.with(|g| g.set(g.get() + 1));
     STALE.with(|s| s.set(0));
+    ZST.with(|z| z.set((0, 0)));
     let n = case.mods.len().clamp(1, 8);
     let stack = case.stack % 3;
     PE_SEEN.with(|c| c.set(0));
@@ -443,6 +474,16 @@ pub fn run_case(case: &Case) -> Result<(bool, Vec<&'static str>), Failure> {
         }
     }
     let total = check_registry(&format!("after dropping everything ({:?})", case.stop))?;
+    let (zc, zd) = ZST.with(|z| z.get());
+    vensure!(
+        zc == zd,
+        if zd < zc { "message-leaked" } else { "dropped-twice" },
+        "after dropping everything ({:?}): {zc} zero-sized message bodies with a destructor were created, {zd} destructor calls were counted",
+        case.stop
+    );
+    if zc > 0 {
+        labels.push("zero-sized-body-with-destructor");
+    }
     c13::check_followup("dropping a simulation")?;
     let stale = STALE.with(|s| s.get());
     vensure!(
@@ -488,7 +529,7 @@ impl Prop for C20 {
 
     fn rule() -> String {
         "proptest: 1..8 modules (flat or parent/child) wired as a ring or chain over slow queueing channels (directly, or through two transit gates of a relay module with the middle hop connected last), each pushing a burst of instance-tracked \
-         message bodies at start (channel backlog), scheduling tracked self messages, spawning tasks blocked on a one-hour sleep / pending / recv / \
+         message bodies at start (channel backlog), scheduling tracked self messages (every third one with a zero-sized body that has a destructor, counted instead of tracked), spawning tasks blocked on a one-hour sleep / pending / recv / \
          short sleep that own tracked tokens (try_join or must-join), optionally shutting down (and restarting), panicking in the k-th handler \
          call, keeping the last message in its state, emitting messages from at_sim_end; 0..2 nodes built with des' AsyncFn building block (new / failable / io) whose \
          future owns a token, hoards the injected messages and is blocked in recv() at the drop, optionally with a child module; 0..2 tracked processing elements per module; stopping point in {builder dropped, frozen Sim \
